@@ -46,6 +46,20 @@ def run(ctx):
                     sim.hugr.to_model()
                     ctx.probe("exported_mid_history")
                     ctx.ev("query", "to_model")
+                    if ch.coin(1, 2, "edit-structured-metadata-in-place"):
+                        # the client keeps working on a structured metadata value it attached earlier (same object,
+                        # new content); the final export must show the content as it is then
+                        for n, nd in list(sim.hugr.nodes()):
+                            v = nd.metadata.get("m")
+                            if isinstance(v, list):
+                                v.append("later")
+                            elif isinstance(v, dict):
+                                v["later"] = [len(v)]
+                            else:
+                                continue
+                            ctx.probe("structured_metadata_edited_in_place_after_export")
+                            ctx.ev("client", "metadata[m] edited in place", n.idx)
+                            break
                 except Exception:  # noqa: BLE001  judged at the end on the complete module
                     pass
         sim.after_step = mid_export
